@@ -93,8 +93,33 @@ type job struct {
 	backend string
 	depth   int
 	shard   int
-	scaled  bool // memory: order-list compaction thresholds lowered (qcheck.Spec.ScaleCompaction)
-	prefix  int  // > 0: start from qcheck.RichPrefixes(...)[prefix-1] with the alphabet alphaRich
+	scaled  bool           // memory: order-list compaction thresholds lowered (qcheck.Spec.ScaleCompaction)
+	prefix  int            // > 0: start from qcheck.RichPrefixes(...)[prefix-1] with the alphabet alphaRich
+	limits  *qmodel.Config // non-nil: search with queue_limits in force and the alphabet alphaLimits
+}
+
+// alphaLimits: the admission side of the store as a source of hidden messages. With queue_limits in force an enqueue
+// (single or batch; accepted, refused as full, refused for a duplicate id after it already evicted under drop_oldest)
+// rearranges or restores stored messages; whatever it leaves stored and due must still be offered, exactly
+// min(batch, ready) at a time. Batches of one, two and three, with a repeated id, with ids already stored, across two
+// routes; a message in the past (first victim of drop_oldest) and one scheduled for the future.
+func alphaLimits() qcheck.Alpha {
+	return qcheck.Alpha{
+		IDs: []string{"a", "b", "c"}, Routes: []string{"/r1", "/r1", "/r2"}, Targets: []string{"t1"},
+		EnqPast: true, EnqBatch: true,
+		Deq:      []qcheck.DeqSpec{{Batch: 2, TTL: ttl}, {Route: "/r2", Batch: 1, TTL: ttl}, {Batch: 100, TTL: ttl}},
+		LeaseOps: []string{"ack", "nack"}, MaxHandles: 2,
+		Ticks: []time.Duration{ttl, 5 * sec},
+	}
+}
+
+// limitConfigs: max_depth x drop policy of the limits searches.
+func limitConfigs(r *runner.Run) []qmodel.Config {
+	cs := []qmodel.Config{{MaxDepth: 2, DropOldest: true}, {MaxDepth: 3, DropOldest: true}, {MaxDepth: 2}}
+	if r.Thorough() {
+		cs = append(cs, qmodel.Config{MaxDepth: 1, DropOldest: true}, qmodel.Config{MaxDepth: 3})
+	}
+	return cs
 }
 
 // alphaRich: the alphabet of the searches that start from non-initial states: settlements and every operator
@@ -128,7 +153,7 @@ const shards = 6
 func TestCheck(t *testing.T) {
 	crashkit.MaybeChild()
 	r := runner.Start("C05", "model_checking")
-	if qcheck.HandleReplay(r, []qcheck.Spec{{Name: "c05", Extra: readiness}, {Name: "c05-churn", Extra: readiness}}, nil) {
+	if qcheck.HandleReplay(r, []qcheck.Spec{{Name: "c05", Extra: readiness}, {Name: "c05-churn", Extra: readiness}, {Name: "c05-limits", Extra: readiness}}, nil) {
 		r.Finish()
 	}
 	if runner.ReplayPath() != "" && (replayInstant(r, t) || replayMass(r, t)) {
@@ -145,13 +170,20 @@ func TestCheck(t *testing.T) {
 	var jobs []job
 	for s := 0; s < shards; s++ {
 		// memory: with the order-list compaction thresholds lowered, so that compactions happen inside the histories
-		jobs = append(jobs, job{"memory", runner.Pick(r, 6, 7), s, true, 0}, job{"sqlite", runner.Pick(r, 4, 6), s, false, 0})
+		jobs = append(jobs, job{"memory", runner.Pick(r, 6, 7), s, true, 0, nil}, job{"sqlite", runner.Pick(r, 4, 6), s, false, 0, nil})
 	}
 	for pi := range qcheck.RichPrefixes(alphaRich()) {
-		jobs = append(jobs, job{"memory", runner.Pick(r, 5, 6), 0, true, pi + 1}, job{"sqlite", runner.Pick(r, 4, 5), 0, false, pi + 1})
+		jobs = append(jobs, job{"memory", runner.Pick(r, 5, 6), 0, true, pi + 1, nil}, job{"sqlite", runner.Pick(r, 4, 5), 0, false, pi + 1, nil})
 	}
 	for pi := range qcheck.RichPrefixes(alphaRich()) {
-		jobs = append(jobs, job{"memory-churn", runner.Pick(r, 4, 5), 0, false, pi + 1})
+		jobs = append(jobs, job{"memory-churn", runner.Pick(r, 4, 5), 0, false, pi + 1, nil})
+	}
+	if os.Getenv("VERIF_C05_PART") == "limits" { // development switch: only the limits searches
+		jobs = nil
+	}
+	for _, c := range limitConfigs(r) {
+		c := c
+		jobs = append(jobs, job{"memory", runner.Pick(r, 5, 6), 0, true, 0, &c}, job{"sqlite", runner.Pick(r, 4, 5), 0, false, 0, &c})
 	}
 	budget := runner.Pick(r, 60*time.Second, 10*time.Minute)
 	if ji, ok := runner.Job(); ok {
@@ -166,9 +198,36 @@ func TestCheck(t *testing.T) {
 		if j.backend == "memory-churn" {
 			j.backend, al, name = "memory", alphaChurn(), "c05-churn"
 		}
-		spec := qcheck.Spec{Name: name, Backend: j.backend, Cfg: qmodel.Config{}, Alpha: al, Depth: j.depth, Workers: 3,
+		cfg := qmodel.Config{}
+		if j.limits != nil {
+			cfg, al, nsh, name = *j.limits, alphaLimits(), 1, "c05-limits"
+			budget = runner.Pick(r, 25*time.Second, 4*time.Minute)
+		}
+		extra := readiness
+		if j.limits != nil {
+			// same monitor; the counters show how many dequeues were judged on a queue at / below its depth limit
+			extra = func(pre, post *qmodel.Model, op qmodel.Op, obs *qmodel.Obs) string {
+				if op.Kind == "deq" {
+					active := 0
+					for _, it := range pre.Items {
+						if it.State == qmodel.Queued || it.State == qmodel.Leased {
+							active++
+						}
+					}
+					r.Add("limits:dequeues_judged", 1)
+					if active >= pre.Cfg.MaxDepth {
+						r.Add("limits:dequeues_judged_at_full_depth", 1)
+					}
+					if len(obs.Items) > 0 {
+						r.Add("limits:dequeues_that_returned_messages", 1)
+					}
+				}
+				return readiness(pre, post, op, obs)
+			}
+		}
+		spec := qcheck.Spec{Name: name, Backend: j.backend, Cfg: cfg, Alpha: al, Depth: j.depth, Workers: 3,
 			RootShard: j.shard, RootShards: nsh, ScaleCompaction: j.scaled, Prefix: pre.Ops, PrefixName: pre.Name,
-			MaxTrans: runner.Pick(r, int64(3_000_000), int64(40_000_000)), Deadline: time.Now().Add(budget), Extra: readiness}
+			MaxTrans: runner.Pick(r, int64(3_000_000), int64(40_000_000)), Deadline: time.Now().Add(budget), Extra: extra}
 		res := qcheck.Run(spec)
 		qcheck.Report(r, spec, res)
 		r.Finish()
@@ -215,7 +274,9 @@ func TestCheck(t *testing.T) {
 		massPart(r, t)
 	}
 	r.Assume("SQLite: an expired lease is certainly released by a dequeue running >= 10 ms (the documented sweep granularity) after the expiry; earlier it may or may not be (the model follows the implementation there); the harness clock is monotonic")
+	r.Assume("limits part: refusals for memory pressure (they need > 1000 retained items) are not executed; they share the undo of tentative evictions with the duplicate-id and queue-full refusals that are")
 	r.Assume("crash part: process death only (see C01); Postgres not executed")
+	r.Set("limits_part", "every store operation sequence up to the depth with queue_limits in force (max_depth 2 / 3 drop_oldest, max_depth 2 reject; thorough also 1 drop_oldest, 3 reject) on both backends over single and batch enqueues (1-3 items, repeated id, stored ids, past received_at, future next_run_at: accepted, refused as full, refused as duplicate after tentative evictions), dequeues, ack / nack and clock steps; every dequeue judged by qmodel and the readiness monitor")
 	r.Set("rule", "(1) every store operation sequence up to the depth over enqueue (incl. future next_run_at), dequeue with all filters and batch sizes 1/2/3/100/101, nack with delay 0 / 5 s, extend, operator requeue/cancel and clock steps {1 ns, 10 ms - 1 ns, 10 ms, 1 s - 1 ns, ttl - 1 ns, ttl, 5 s - 1 ns, 5 s} on both backends, validated by qmodel and an independent readiness monitor (never before due, exactly min(batch, ready) items, everything due for >= the sweep granularity is ready); (2) every interleaving within the preemption bound of two consumers on two routes racing across a lease expiry, linearizability against qmodel; (3) SIGKILL before every file-mutating syscall of a lease-centred history (dequeue, extend, nack, delayed nack, dead-letter, checkpoint), restart, every unsettled message offered again exactly once after lease expiry; non-trivial = distinct (operation, result) pairs, distinct schedules' outcomes and distinct crash classes")
 	r.Finish()
 }
